@@ -12,6 +12,7 @@
 import PyGqlModel.Lemmas.ParseValue
 import PyGqlModel.Lemmas.ParseDocL
 import PyGqlModel.Lemmas.ParseTSE
+import PyGqlModel.Lemmas.ParseTSC
 namespace PyGql.Props.C01
 open PyGql PyGql.Ast PyGql.Parse PyGql.Spec
 
